@@ -211,8 +211,14 @@ def run_path(I, c, fn, module, res):
         if outcome[0] == 'return':
             res.normal_exits += 1
             result = outcome[1]
+            # final_<parameter>: the value the parameter name holds at exit (a parameter rebound in the body, e.g. a
+            # default filled in); only meaningful in '@check' clauses, call sites cannot see it
+            xtra = {'result': result}
+            for p in params:
+                if p in fr.env:
+                    xtra['final_' + p] = fr.env[p]
             for i, e in enumerate(c.ensures):
-                g = I.goal(e, pf, {'result': result})
+                g = I.goal(e, pf, xtra)
                 ctx.oblige(I.oname('post', None, i), g, 'post')
             for k, (cond, e) in c.sets_if.items():
                 slf = pf.env.get('self')
